@@ -7,14 +7,13 @@ from framework import PropertyCheck
 
 class Check(PropertyCheck):
     ID = "C02"
-    LEAN_MODULE = "JobShopProofs.Properties.C02"
+    LEAN_MODULE = "JobShopProofs.ObserversTransparent"
     THEOREMS = [
         "JS.C02_start_forced",
         "JS.C02_tracking",
         "JS.C02_reset_eq_init",
         "JS.C02_replay",
-        "JS.C02_replay_from_reset",
-    ]
+        "JS.C02_replay_from_reset", "JS.C02_world_tracking"]
     RULE = ("random instance (10 families) x random filter x random valid history with invalid requests and queries "
             "interleaved, then reset and re-dispatch of the accepted requests; snapshot compared with the Lean model "
             "after every request; oracle: start = max(job predecessor end, last end on machine) recomputed from the "
